@@ -1068,26 +1068,66 @@ func (c *Ctx) checkHashable(r *Report) {
 			}
 			// the helper: every Hashable call is on an element of its parameter and its failure leads to `false` only
 			good, nCalls := true, 0
+			subs := map[string]bool{}
+			// elemSub: v is an element of the parameter ("") or a field of one (".Key"); ok=false otherwise
+			elemSub := func(v ssa.Value) (string, bool) {
+				isElemAddr := func(a ssa.Value) bool {
+					x, isIA := a.(*ssa.IndexAddr)
+					return isIA && x.X == ssa.Value(callee.Params[0])
+				}
+				switch x := v.(type) {
+				case *ssa.UnOp:
+					if isElemAddr(x.X) {
+						return "", true
+					}
+					if fa, ok := x.X.(*ssa.FieldAddr); ok {
+						base := fa.X
+						// the element copied into a local first (for _, kv := range pairs)
+						if al, isAl := base.(*ssa.Alloc); isAl {
+							var only ssa.Value
+							n := 0
+							for _, ref := range *al.Referrers() {
+								if st, ok := ref.(*ssa.Store); ok && st.Addr == ssa.Value(al) {
+									n++
+									only = st.Val
+								}
+							}
+							if ld, ok := only.(*ssa.UnOp); ok && n == 1 && isElemAddr(ld.X) {
+								base = ld.X
+							}
+						}
+						if isElemAddr(base) {
+							if est := namedOrStruct(fa.X.Type()); est != nil {
+								return "." + est.Field(fa.Field).Name(), true
+							}
+						}
+					}
+				case *ssa.Field:
+					if ld, ok := x.X.(*ssa.UnOp); ok && isElemAddr(ld.X) {
+						if est, ok := x.X.Type().Underlying().(*types.Struct); ok {
+							return "." + est.Field(x.Field).Name(), true
+						}
+					}
+				}
+				return "", false
+			}
 			for _, ci := range callsIn(callee, hashable) {
 				ic, ok := ci.(*ssa.Call)
 				if !ok {
 					continue
 				}
 				nCalls++
-				ld, ok := ic.Common().Args[0].(*ssa.UnOp)
-				ia, ok2 := (ssa.Value)(nil), false
-				if ok {
-					if x, isIA := ld.X.(*ssa.IndexAddr); isIA && x.X == ssa.Value(callee.Params[0]) {
-						ia, ok2 = x, true
-					}
-				}
-				_ = ia
+				sub, ok2 := elemSub(ic.Common().Args[0])
 				if !ok2 || !c.onlyFalseWhen(callee, ic) {
 					good = false
+					continue
 				}
+				subs[sub] = true
 			}
 			if good && nCalls > 0 && c.onlyFalseWhen(fn, hc) {
-				covered[fieldName+"[]"] = true
+				for sub := range subs {
+					covered[fieldName+"[]"+sub] = true
+				}
 			}
 		})
 		for _, req := range required {
@@ -1370,4 +1410,13 @@ func paramIndex(fn *ssa.Function, p *ssa.Parameter) int {
 		}
 	}
 	return -1
+}
+
+// namedOrStruct: the struct type a pointer-to-struct (or struct) type denotes.
+func namedOrStruct(t types.Type) *types.Struct {
+	if p, ok := t.Underlying().(*types.Pointer); ok {
+		t = p.Elem()
+	}
+	st, _ := t.Underlying().(*types.Struct)
+	return st
 }
